@@ -33,15 +33,35 @@ func (f *Frame) execCall(cc *ssa.CallCommon, pos token.Pos, instr ssa.Value) Val
 	fn, args := f.callOperands(cc)
 	r := f.execCallWith(cc, pos, fn, args)
 	if f.top && f.fc != nil && len(f.fc.After) > 0 {
+		var keys []string
+		name := ""
 		if callee := cc.StaticCallee(); callee != nil && callee.Pkg != nil {
-			for _, key := range []string{callee.Pkg.Pkg.Name() + "." + callee.Name(), callee.Name()} {
-				for i, as := range f.fc.After[key] {
-					env := f.specEnv(f.st, f.entrySt, true)
-					g := env.evalBool(as.Expr)
-					f.oblige("assert", fmt.Sprintf("after-%s.%d", callee.Name(), i), g, pos, as.Props, as.Text)
-					c := f.c
-					c.assume(implies(f.reach, g))
+			name = callee.Name()
+			keys = []string{callee.Pkg.Pkg.Name() + "." + callee.Name(), callee.Name()}
+		} else if cc.IsInvoke() {
+			name = cc.Method.Name()
+			keys = []string{name}
+		}
+		for _, key := range keys {
+			for i, as := range f.fc.After[key] {
+				env := f.specEnv(f.st, f.entrySt, true)
+				// the callee's results are r0, r1, ... (they are not stored into locals yet)
+				if len(r.Tup) > 0 {
+					for k, rv := range r.Tup {
+						env.vars[fmt.Sprintf("r%d", k)] = rv
+					}
+				} else if r.T != nil {
+					if _, isTuple := r.T.(*types.Tuple); !isTuple {
+						env.vars["r0"] = r
+					}
 				}
+				g := env.evalBool(as.Expr)
+				if as.Kind == "assume" {
+					f.c.used[fmt.Sprintf("explicit assumption after %s in %s: %s", key, f.c.fnName, as.Text)] = true
+				} else {
+					f.oblige("assert", fmt.Sprintf("after-%s.%d", name, i), g, pos, as.Props, as.Text)
+				}
+				f.c.assume(implies(f.reach, g))
 			}
 		}
 	}
@@ -325,6 +345,12 @@ func (f *Frame) applyContract(fc *FuncContract, callee *ssa.Function, sig *types
 	}
 	for _, lv := range lvs {
 		f.havocLval(lv)
+	}
+	if fc.ModAll {
+		f.havocAll()
+		if tf := f.topFrame(); tf.fc == nil || !tf.fc.ModAll {
+			f.oblige("frame", "anything", "false", pos, nil, "call of "+short+", which may modify anything, in a function whose contract does not say 'modifies anything'")
+		}
 	}
 	// results
 	var vs []Val
